@@ -254,3 +254,81 @@ def r6(ctx):
     from .c11 import r4 as c11r4
 
     c11r4(ctx)
+
+
+# ----------------------------------------------------------------------
+ACCEPT = [
+    [],
+    [{"file": "a.c", "command": "gcc -c a.c"}],
+    [{"file": "a.c", "command": ""}],
+    [{"file": "a.c", "arguments": []}],
+    [{"file": "a.c", "arguments": ["gcc", "-c", "a.c"]}],
+    [{"file": "a.c", "directory": "build", "arguments": ["gcc", "-DGREETING=hello world", "-I", "third party/include", "-include", "my config.h", "", "-DX=\"q\""], "output": "a.o"}],
+    [{"file": "sub dir/a b.c", "directory": "/abs/build dir", "command": "gcc -DX='a b' -c \"sub dir/a b.c\""}],
+    [{"file": "a.c", "command": "gcc -c a.c", "arguments": ["gcc", "-c", "a.c"]}],
+    [{"file": "a.c", "command": "x"}, {"file": "a.c", "command": "x"}],
+]
+REJECT = [
+    {"file": "a.c"},
+    [{"file": "a.c"}],
+    [{"file": 1, "command": "x"}],
+    [{"file": "a.c", "arguments": "gcc -c a.c"}],
+    [{"file": "a.c", "arguments": [1, 2]}],
+    [{"file": "a.c", "command": ["gcc"]}],
+    ["gcc -c a.c"],
+]
+
+
+@rule("C13.R7", "the compilation-database schema accepts every legal entry form (both command forms, empty commands, arguments with spaces) and rejects malformed ones")
+def r7(ctx):
+    import json as _json
+
+    repo = ctx.repo
+    schema = repo.json("schema/compilation-database.schema")
+    try:
+        import jsonschema
+    except Exception as e:  # pragma: no cover
+        raise AnalysisError(f"jsonschema unavailable: {e}")
+    loc = "codebasin/schema/compilation-database.schema"
+    try:
+        jsonschema.Draft202012Validator.check_schema(schema)
+    except Exception as e:
+        ctx.violation("schema:compilation-database:well-formed", f"not a valid JSON schema: {e}", loc)
+        return
+    for inst in ACCEPT:
+        key = "schema:compilation-database:accepts:" + _json.dumps(inst)[:70]
+        try:
+            jsonschema.validate(instance=inst, schema=schema)
+            ctx.ok(key)
+        except jsonschema.exceptions.ValidationError as e:
+            ctx.violation(key, f"a legal compilation database is rejected ({e.message[:100]}): loading raises ValueError and the whole analysis aborts instead of the entry being used / skipped with a warning", loc)
+    for inst in REJECT:
+        key = "schema:compilation-database:rejects:" + _json.dumps(inst)[:70]
+        try:
+            jsonschema.validate(instance=inst, schema=schema)
+            ctx.violation(key, "a malformed compilation database passes validation", loc)
+        except jsonschema.exceptions.ValidationError:
+            ctx.ok(key)
+    # one CompileCommand per JSON entry, in order
+    fj = repo.cls("__init__", "CompilationDatabase").find_method("from_json")
+    t = u(fj.node)
+    ok = "commands = [CompileCommand.from_json(c) for c in instance]" in t and "return cls(commands)" in t
+    ctx.check(ok, "__init__:CompilationDatabase.from_json:one-command-per-entry", "every entry of the database must become a CompileCommand, in order (no merging, no de-duplication)", fj.loc())
+    it = repo.cls("__init__", "CompilationDatabase").find_method("__iter__")
+    ctx.check("yield from self.commands" in u(it.node), "__init__:CompilationDatabase.__iter__", "iteration must yield every command", it.loc())
+    cj = repo.cls("__init__", "CompileCommand").find_method("from_json")
+    t = u(cj.node)
+    ok = all(x in t for x in ("instance['file']", "instance.get('directory', None)", "instance.get('arguments', None)", "instance.get('command', None)"))
+    ctx.check(ok, "__init__:CompileCommand.from_json:fields", "file / directory / arguments / command must be taken from the entry unchanged", cj.loc())
+    # compiler identified by argv[0] only
+    ld = repo.func("config", "load_database")
+    ap = [c for c in ld.calls() if callee(c) == "ArgumentParser"]
+    ok = len(ap) == 1
+    if ok:
+        leaves = provenance(ld, ap[0].args[0], stmt_of(ld, ap[0]))
+        chains = [c for _, c in leaves]
+        texts = {u(l) for l, _ in leaves}
+        ok = texts == {"command.arguments[0]", "command.arguments"} or texts == {"command.arguments[0]"} or ("command.arguments[0]" in texts and all(set(c) <= {"os.path.basename", "<subscript>"} for c in chains))
+        ok = ok and all(set(c) <= {"os.path.basename", "<subscript>"} for c in chains)
+    ctx.check(ok, "config:load_database:compiler-from-argv0", "the compiler must be looked up by argv[0] (its base name) exactly - stripping suffixes or otherwise rewriting the name loses aliases and definitions of compilers such as gcc-12.2", ld.loc())
+    ctx.floor(len(ACCEPT) + len(REJECT) + 3)
